@@ -169,3 +169,18 @@ class MemVariable(_variable.Variable):
     def set_data(self, data):
         rt.emit("set_data", rt.snapshot(data))
         self.mem = bytes(data)
+
+
+class SdoNodeStub:
+    """the SDO end point behind an SdoVariable: upload/download are the (contracted) transfers"""
+
+    def __init__(self, od, held):
+        self.od = od
+        self.held = held
+
+    def upload(self, index, subindex):
+        rt.emit("upload", index, subindex)
+        return self.held
+
+    def download(self, index, subindex, data, force_segment=False):
+        rt.emit("download", index, subindex, rt.snapshot(data), force_segment)
